@@ -70,6 +70,46 @@ func expectedMsgs(exps []Exp) []Msg {
 	return out
 }
 
+// expectedWithPartial additionally lists a trailing unfinished message (one
+// whose FIN frame is not in the script before the violation or stall), with
+// the bytes of it that are on the wire.
+func expectedWithPartial(exps []Exp) (out []Msg, complete int) {
+	for _, x := range exps {
+		if x.Violation != "" {
+			break
+		}
+		if x.Control {
+			continue
+		}
+		if x.Complete {
+			out = append(out, Msg{MT: x.Op, Payload: x.Payload})
+			complete++
+			continue
+		}
+		sent := 0
+		for i, n := range x.FragWire {
+			if x.StallHdrEnd > 0 && i == len(x.FragWire)-1 && x.FragEnds[i] > x.StallHdrEnd {
+				break
+			}
+			sent += n
+		}
+		if x.StallHdrEnd > 0 {
+			// the last listed fragment is header-only
+			sent = 0
+			for i := 0; i < len(x.FragWire)-1; i++ {
+				sent += x.FragWire[i]
+			}
+		}
+		p := x.Payload
+		if !x.Compressed && sent <= len(p) {
+			p = p[:sent]
+		}
+		out = append(out, Msg{MT: x.Op, Payload: p, Partial: true})
+		break
+	}
+	return
+}
+
 func realOfLink(run *Run, i int) *RealEnd {
 	for _, e := range run.Reals {
 		if e.Link == i && e.Conn != nil {
